@@ -139,6 +139,68 @@ func rttFloat(st h.Step, rng *rand.Rand) map[string]interface{} {
 	return obs
 }
 
+// rttBound: ordinary coordinates (raw distance exactly 6 s) whose adjustments bring the adjusted distance to the
+// boundary of the seconds -> Duration conversion: d0 = Duration(MaxInt64).Seconds() (d0*1e9 is exactly 2^63) and its
+// -2..+2 ulp neighbours.  The split of the adjustment between the two coordinates is the class `ac`.
+func rttBound(st h.Step) map[string]interface{} {
+	d0 := time.Duration(math.MaxInt64).Seconds()
+	targets := []float64{d0, d0, d0, d0, d0}
+	targets[1] = math.Nextafter(d0, 0)
+	targets[0] = math.Nextafter(targets[1], 0)
+	targets[3] = math.Nextafter(d0, math.Inf(1))
+	targets[4] = math.Nextafter(targets[3], math.Inf(1))
+	if d0*1e9 != 9223372036854775808.0 {
+		h.Die("harness: d0*1e9 is not 2^63")
+	}
+	obs := map[string]interface{}{"ab": 0, "ba": 0, "rem": 0, "err": 0, "neg": 0, "dns": 0}
+	bnd := make([]int, len(targets))
+	worst := 0
+	for k, target := range targets {
+		c1 := &coordinate.Coordinate{Vec: []float64{0, 0, 0}, Error: 0.5, Height: 0.5}
+		c2 := &coordinate.Coordinate{Vec: []float64{3, 4, 0}, Error: 0.5, Height: 0.5}
+		total := target - 6
+		switch st.Str("ac") {
+		case "split0":
+			c1.Adjustment, c2.Adjustment = 0, total
+		case "split1":
+			c1.Adjustment, c2.Adjustment = total, 0
+		case "split2":
+			c1.Adjustment = 1024
+			c2.Adjustment = total - 1024
+		case "split3":
+			c1.Adjustment = total / 2
+			c2.Adjustment = total - c1.Adjustment
+		default:
+			h.Die("split class %q", st.Str("ac"))
+		}
+		if 6+(c1.Adjustment+c2.Adjustment) != target || (6+c1.Adjustment)+c2.Adjustment != target {
+			h.Die("harness: split %s does not reach the target %v exactly", st.Str("ac"), target)
+		}
+		d12, e1 := distance(c1, c2)
+		d21, e2 := distance(c2, c1)
+		if e1 != 0 || e2 != 0 {
+			obs["err"] = 2
+			continue
+		}
+		if d12 < 0 || d21 < 0 {
+			obs["neg"] = 1
+			bnd[k] = -1
+		} else {
+			diff := int64(math.MaxInt64) - int64(d12)
+			if diff > 1<<30 {
+				diff = 1 << 30
+			}
+			bnd[k] = int(diff)
+		}
+		if x := capAbs(d12-d21, 1000); x > worst {
+			worst = x
+		}
+	}
+	obs["dns"] = worst
+	obs["bnd"] = bnd
+	return obs
+}
+
 func runRTT(in, out string) {
 	scheds, err := h.ReadSchedules(in)
 	if err != nil {
@@ -154,6 +216,8 @@ func runRTT(in, out string) {
 		for _, st := range s.Steps {
 			if st.Str("ep") == "exact" {
 				tr.Step(st, rttExact(st))
+			} else if st.Str("ep") == "bound" {
+				tr.Step(st, rttBound(st))
 			} else {
 				tr.Step(st, rttFloat(st, rng))
 			}
